@@ -46,7 +46,8 @@ pub fn judge(scn: &Scenario, res: &ExecResult, _b: Option<&ExecResult>) -> Vec<V
             let interval = scn.peers[0].desync as i32;
             let w = scn.peers[0].window as i32;
             let d = scn.peers.iter().map(|p| p.delay).max().unwrap_or(0) as i32;
-            let deadline_frame = g + 3 * interval + w + 2 * scn.latency + d + 6;
+            let burst = scn.outages.iter().map(|o| o.len).max().unwrap_or(0);
+            let deadline_frame = g + 3 * interval + w + 2 * scn.latency + d + 6 + burst;
             for (ni, nt) in res.nodes.iter().enumerate() {
                 if nt.is_spec || nt.crashed.is_some() {
                     continue;
@@ -208,6 +209,40 @@ pub fn c09() -> i32 {
         let cfg = ExploreCfg { k: Some(0), wall: Duration::from_secs(if t { 900 } else { 40 }), ..Default::default() };
         let out = explore(&scns, &cfg, &judge);
         rep.absorb("detection half: one peer's game diverges from frame g on, every g in 0..40 and around 32*interval", out, &props, json!({"k": 0, "scenarios": n}));
+        // divergence right after a one-way loss burst (the confirmed frame jumps over several
+        // reporting frames in one call when the burst ends)
+        let mut scns = Vec::new();
+        for iv in [1u32, 2, 3] {
+            for len in [3, 5, 8, 12] {
+                for off in -2..=(if t { 8 } else { 5 }) {
+                    for dir in 0..2 {
+                        for w in [8usize, 3] {
+                            if !t && (w == 3 && len > 5 || off % 2 != 0 && iv == 3) {
+                                continue;
+                            }
+                            let mut s = base_scn("c09-detect-after-burst", "1+1", w, 0, false, Pred::RepeatLast, Program::Changing, 1);
+                            for p in s.peers.iter_mut() {
+                                p.desync = iv;
+                            }
+                            let (a, b) = (s.peers[0].addr, s.peers[1].addr);
+                            let (from, to) = if dir == 0 { (b, a) } else { (a, b) };
+                            s.outages.push(Outage { from, to, start: 20, len, classes: CLASS_ALL });
+                            let g = 20 + len + off;
+                            s.diverge = Some((1, g));
+                            s.name = format!("{} interval={iv} burst len={len} dir={dir} node 1 diverges from frame {g}", s.name);
+                            s.horizon = 20 + len + 2;
+                            s.probe = g + 4 * iv as i32 + 2 * w as i32 + 60;
+                            s.checks = CK_C02 | CK_C03 | CK_C04;
+                            scns.push(s);
+                        }
+                    }
+                }
+            }
+        }
+        let n = scns.len();
+        let cfg = ExploreCfg { k: Some(0), wall: Duration::from_secs(if t { 900 } else { 40 }), ..Default::default() };
+        let out = explore(&scns, &cfg, &judge);
+        rep.absorb("detection half: divergence right after a one-way loss burst, intervals 1..3", out, &props, json!({"k": 0, "scenarios": n}));
         // with one deviation
         let mut scns = Vec::new();
         for iv in [1u32, 4] {
